@@ -338,7 +338,7 @@ class Msgs(Suite):
     name = "messages"
     go_cmd = "c35"
     coq_imports = "From GoGit Require Import Model.PktLine Model.Packp."
-    quick_n = 480
+    quick_n = 400
     thorough_n = 3000
     coq_chunk = 70
 
